@@ -16,8 +16,10 @@ from . import ber
 OPS = [
     "len+1", "len-1", "len+k", "len-k", "len0", "len-huge", "len-pad",
     "class", "number", "constructed", "universal-high", "hightag-form",
-    "truncate", "empty", "random", "delete", "duplicate", "swap", "wrap", "indefinite", "append-junk",
+    "truncate", "empty", "random", "delete", "duplicate", "swap", "wrap", "indefinite", "append-junk", "bad-utf8",
 ]
+
+_BAD_UTF8 = [b"\xff", b"\xc3", b"\xed\xa0\x80", b"\xf8\x88\x80\x80\x80", b"\xc0\xaf", b"a\x80b", b"\xe2\x82", b"\xf4\x90\x80\x80"]
 
 
 class Node(t.NamedTuple):
@@ -125,6 +127,11 @@ def _replacement(data: bytes, nodes: t.List[Node], i: int, op: str, arg: int, rn
         return s, e, ident + b"\x80" + content + b"\x00\x00"
     if op == "append-junk":
         return e, e, rnd
+    if op == "bad-utf8":
+        # content that is not valid UTF-8 (only meaningful at string nodes; elsewhere it is just other content)
+        bad = _BAD_UTF8[arg % len(_BAD_UTF8)]
+        body = content[: arg % (len(content) + 1)] + bad + content[arg % (len(content) + 1):] if not n.constructed else bad
+        return s, e, ident + ber.length_octets(len(body)) + body
     raise ValueError(op)
 
 
